@@ -194,6 +194,14 @@ def main():
       raise InfraError("tensorflow_lattice imported from %s, not %s" % (tfl_path, common.REPO))
     ctx = Ctx(prop, tier, seed)
     if ba["ok"]:
+      # corpus first: minimised past disagreements and witnesses of findings / fixed defects
+      cdir = os.path.join(ROOT, "corpus", prop)
+      if os.path.isdir(cdir) and hasattr(mod, "replay"):
+        for fn in sorted(os.listdir(cdir)):
+          if fn.endswith(".json"):
+            for f in json.load(open(os.path.join(cdir, fn))).get("failures", []):
+              ctx.count("corpus")
+              mod.replay(ctx, f)
       mod.run(ctx)
     findings = load_findings(prop)
     known, unknown = [], []
